@@ -37,7 +37,7 @@ func e7newRoot() (e7slice, func()) {
 }
 func e7cap(s e7slice) int              { return cap(*s.orig) }
 func e7ts(e e7elem) uint64             { return uint64(e.Timestamp()) }
-func e7setTs(e e7elem, v int)          { e.SetTimestamp(pcommon.Timestamp(v)) }
+func e7setTs(e e7elem, v uint64)       { e.SetTimestamp(pcommon.Timestamp(v)) }
 func e7attrs(e e7elem) pcommon.Map     { return e.Attributes() }
 func e7f1Value(e e7elem) pcommon.Value { return e.Body() }
 func e7f1Set(e e7elem, nv string)      { e7setValue(e.Body(), nv) }
@@ -311,7 +311,10 @@ func TestVerifC07Elem(t *testing.T) {
 			case r < 14: // AppendEmpty
 				emitCap(fmt.Sprintf("op appendrec %d - fields=c0.0;n;m", a), func() int { return e7cap(sl[a]) }, func() { sl[a].AppendEmpty() })
 			case r < 20 && la > 0:
-				k, v := rnd.IntN(la), rnd.IntN(99)
+				k, v := rnd.IntN(la), uint64(rnd.IntN(99))
+				if rnd.IntN(3) == 0 { // the extremes of the field: a Timestamp is unsigned, some stores behind it are signed
+					v = []uint64{0, 1, 1<<63 - 1, 1 << 63, ^uint64(0), ^uint64(0) - 1}[rnd.IntN(6)]
+				}
 				emit(fmt.Sprintf("op setslot %d i%d i0 c0.%d cap=3", a, k, v), func() { e7setTs(sl[a].At(k), v) })
 			case r < 30 && la > 0:
 				k, nv := rnd.IntN(la), e7f1Choices(rnd)
